@@ -101,6 +101,18 @@ _NIB_OF = {}    # id(nibble term) -> (byte term, 'hi'|'lo')
 _KEEP = []      # keep terms alive so ids stay unique
 
 
+_BESUM = {}     # id(term) -> big-endian list of byte terms whose base-256 value the term is
+
+
+def register_besum(v, bs):
+    _BESUM[v.get_id()] = list(bs)
+    _KEEP.append(v)
+
+
+def besum_of(v):
+    return _BESUM.get(v.get_id()) if isz(v) else None
+
+
 def _tid(t):
     return t.get_id() if isz(t) else ("c", t)
 
@@ -412,6 +424,14 @@ def seq_eq(a, b):
             B.pop(0)
             changed = True
             continue
+        if isinstance(x, Gen) and isinstance(y, Gen) and x.origin is not None and y.origin is not None \
+                and x.origin[0] == "dec" and y.origin[0] == "dec" and _nondigit_follows(A) and _nondigit_follows(B):
+            # decimal texts followed by a non-digit (or the end): equal iff the numbers are equal (unique parse)
+            conj.append(x.origin[1] == y.origin[1])
+            A.pop(0)
+            B.pop(0)
+            changed = True
+            continue
         if isinstance(x, Elems) and isinstance(y, Elems):
             n = min(len(x.terms), len(y.terms))
             f = seq_eq(Seq(a.kind, [Elems(x.terms[:n])]), Seq(a.kind, [Elems(y.terms[:n])]))
@@ -434,6 +454,15 @@ def seq_eq(a, b):
     body = z3.Implies(z3.And(k >= 0, k < zi(la)), a2.at(k) == b2.at(k))
     conj += [zi(la) == zi(lb), z3.ForAll([k], body)]
     return z3.And(conj)
+
+
+def _nondigit_follows(segs):
+    if len(segs) == 1:
+        return True
+    nxt = segs[1]
+    if isinstance(nxt, Elems) and nxt.terms and not isz(nxt.terms[0]):
+        return not (48 <= nxt.terms[0] <= 57)
+    return False
 
 
 class SymEnum:
